@@ -915,6 +915,7 @@ class Repo:
         CUR.access("config-read", self.path)
         data = CUR.files.get(self.controldir() + "/config", b"")
         cf = ConfigFile.from_file(BytesIO(data))
+        cf.path = self.controldir() + "/config"  # as ConfigFile.from_path() records it
         return cf
 
     def _put_named_file(self, name, contents):
